@@ -443,6 +443,12 @@ func vwapiStress(ms int) string {
 
 func init() {
 	register("vwapi", func(args []string) {
+		// rules may carry a `file` field: keep whatever the host creates out of the caller's directory
+		if dir, err := os.MkdirTemp("", "verif-vwapi-"); err == nil {
+			if os.Chdir(dir) == nil {
+				defer os.RemoveAll(dir)
+			}
+		}
 		if len(args) == 2 && args[0] == "stress-child" {
 			ms, _ := strconv.Atoi(args[1])
 			vwapiStressChild(ms)
